@@ -185,6 +185,19 @@ def deep_history(g, cfg, seed):
         op = h.gen.op_rm_directory(h.sess.model)
         if op:
             h.apply(op)
+    if r.random() < 0.3:
+        # take every relocated directory away again (deepest first): the relocation directory
+        # goes with the last one, and with it whatever it had reserved
+        for _ in range(40):
+            m_ = h.sess.model
+            leaves = [d for d in m_.dirs('iso') if m_.depth(d) >= 8 and not m_.children('iso', d)]
+            files_ = [p for p, n in m_.ns['iso'].items() if n.kind != 'dir' and m_.depth(p) >= 9]
+            if files_:
+                h.apply({'op': 'rm_hard_link' if m_.ns['iso'][files_[0]].kind == 'file' else 'rm_file', 'iso_path': files_[0]})
+            elif leaves:
+                h.apply({'op': 'rm_directory', 'iso_path': max(leaves, key=m_.depth)})
+            else:
+                break
     return h
 
 
